@@ -8,11 +8,15 @@ The code variant the model mirrors is selected by facts regenerated from the sou
 
   H.<algo> …        one history → Spec clauses `Retained`, `SentToDestination`, `EpidemicFlood`, restart
   CONC.<algo> …     two simultaneous transmission failures of one bundle (see `NodeLine.judgeConc`)
+  MID.<algo> …      the persistent record while a transmission is in progress (`NodeLine.judgeMid`)
+  OVL.<algo> …      a peer appears while another pending-bundles run is blocked in a Send (`NodeLine.judgeOvl`)
 -/
 open Dtn7.Node
 
 def handle (line : String) : String :=
   if line.startsWith "CONC." then NodeLine.judgeConc line
+  else if line.startsWith "MID." then NodeLine.judgeMid line
+  else if line.startsWith "OVL." then NodeLine.judgeOvl line
   else NodeLine.judge ⟨Dtn7.Gen.C05.seqAssignedFirst, Dtn7.Gen.C05.sendBundleSkipsStored, Dtn7.Gen.C05.expiryCountsFromNow, Dtn7.Gen.C05.dtlsrReportsFailure,
     Dtn7.Gen.C05.dispatchingHoldsRefused⟩ c05Fail line
 
